@@ -10,6 +10,7 @@ RECV_SYNC = ["recv", "recv_timeout", "try_recv", "try_recv_realtime", "drain_int
 OBS = ["len", "is_empty", "is_full", "capacity", "is_bounded", "sender_count", "receiver_count",
        "is_closed", "is_disconnected"]
 
+INTEG = [0]
 PROFILES = {
     # weights: (op, weight)
     "general": dict(
@@ -66,6 +67,19 @@ PROFILES = {
               ("iter_next", 1), ("arecv", 4), ("stream", 2), ("close", 1), ("drop", 1), ("clone", 1), ("obs", 1), ("conv", 1)],
         caps=[0, 1, 2, None], nprocs=[4], nops=[0, 1, 2, 3, 3], payloads=["w1", "b3", "h4", "p5", "u8", "u16"],
         sides=["s", "s", "r", "r"], l2=True, late=0.2),
+    "mixed": dict(
+        send=[("send", 5), ("try_send", 2), ("send_timeout", 1), ("asend", 5), ("close", 1), ("drop", 1), ("clone", 2), ("conv", 3), ("obs", 1)],
+        recv=[("recv", 5), ("try_recv", 2), ("recv_timeout", 1), ("drain_into", 1), ("arecv", 5), ("stream", 2), ("close", 1), ("drop", 1),
+              ("clone", 2), ("conv", 3), ("obs", 1)],
+        caps=[0, 0, 1, 2, None], nprocs=[2, 3, 3, 4], nops=[2, 3, 4], payloads=["w1", "b3", "h4", "p5"], late=0.2),
+    "fdrop": dict(
+        send=[("asend_d", 8), ("send", 2), ("try_send", 2), ("close", 1), ("drop", 1)],
+        recv=[("arecv_d", 8), ("stream_d", 3), ("recv", 2), ("try_recv", 2), ("drain_into", 1), ("close", 1), ("drop", 1)],
+        caps=[0, 0, 1, 2], nprocs=[2, 3, 3], nops=[1, 2, 3], payloads=["w1", "b3", "h4", "p5", "z0"], late=0.2),
+    "poll": dict(
+        send=[("asend_p", 8), ("send", 2), ("try_send", 2), ("close", 1), ("drop", 1)],
+        recv=[("arecv_p", 8), ("stream_p", 4), ("recv", 2), ("try_recv", 2), ("close", 1), ("drop", 1)],
+        caps=[0, 0, 1, 2], nprocs=[2, 3, 3], nops=[1, 2, 3], payloads=["w1", "b3", "h4"], late=0.2),
     "drain": dict(
         send=[("send", 6), ("asend", 4), ("try_send", 2), ("send_timeout", 1), ("close", 1), ("drop", 1)],
         recv=[("drain_into", 8), ("recv", 1), ("try_recv", 1), ("close", 1), ("obs", 1)],
@@ -88,6 +102,28 @@ def gen_program(rng, profile="general", payload=None, cap="rand"):
         return gen_chain(rng, payload, cap)
     if profile == "chain_s":
         return gen_chain(rng, payload, cap, side="s")
+    if profile == "progress":
+        return gen_progress(rng)
+    if profile == "mutex":
+        return gen_mutex(rng)
+    if profile == "mutexfreeze":
+        return gen_mutex(rng, True)
+    if profile == "hbfreeze":
+        # C07: freeze one process at its k-th hook (e.g. right after its final store) while the others, including
+        # parked owners woken spuriously, run on alone
+        p = gen_progress(rng) if rng.random() < 0.7 else gen_chain(rng, payload, cap)
+        st = dict(p.get("strat", {}))
+        st.update({"freeze": [rng.randrange(len(p["procs"])), rng.randrange(1, 70)], "p_spurious": 0.5, "max_spurious": 3})
+        p["strat"] = st
+        return p
+    if profile == "tryfreeze":
+        # a peer is frozen at its k-th hook (possibly inside a critical section) while non-blocking callers run alone
+        p = gen_program(rng, "try", payload, cap)
+        p["strat"] = {"freeze": [rng.randrange(len(p["procs"])), rng.randrange(1, 40)]}
+        return p
+    if profile.startswith("integrity_"):
+        INTEG[0] += 1
+        return gen_integrity(rng, INTEG[0], profile.split("_", 1)[1])
     pf = PROFILES[profile]
     n = rng.choice(pf["nprocs"])
     capv = rng.choice(pf["caps"]) if cap == "rand" else cap
@@ -157,6 +193,26 @@ def gen_program(rng, profile="general", payload=None, cap="rand"):
                 ops.append({"op": "stream_new", "h": h, "f": f})
                 for _ in range(rng.choice([2, 3, 4])):
                     ops.append({"op": "await", "f": f, "w": rng.choice([1, 1, 2])})
+            elif o in ("asend_d", "arecv_d", "stream_d", "asend_p", "arecv_p", "stream_p"):
+                f = nf
+                nf += 1
+                base, mode = o.split("_")
+                ops.append({"op": {"asend": "asend_new", "arecv": "arecv_new", "stream": "stream_new"}[base], "h": h, "f": f, "m": m})
+                if mode == "d":
+                    script = rng.choice(["drop", "poll_drop", "poll_poll_drop", "poll_drop", "await_drop", "poll"])
+                else:
+                    script = rng.choice(["poll_poll_await", "poll_poll_poll_await", "poll_await_poll", "await_poll_poll",
+                                         "poll_poll_poll", "poll_await"])
+                    if base == "stream":
+                        script = rng.choice(["poll_poll_await_await", "await_poll_await_poll", "await_await_await_poll", "poll_poll_await"])
+                for step in script.split("_"):
+                    w2 = rng.choice([1, 2, 3])
+                    if step == "await":
+                        ops.append({"op": "await", "f": f, "w": w2})
+                    elif step == "poll":
+                        ops.append({"op": "poll", "f": f, "w": w2})
+                    else:
+                        ops.append({"op": "drop_fut", "f": f})
             elif o in ("asend", "arecv", "stream"):
                 f = nf
                 nf += 1
@@ -303,6 +359,178 @@ def gen_chain(rng, payload=None, cap="rand", side=None):
                 sops.append({"op": o, "h": 0, "m": m})
         procs.append({"phase": 0, "handles": [rng.choice(["ss", "as"])], "ops": sops})
     return {"cap": capv, "payload": pl, "procs": procs, "strat": {"tick_phase": cancel_ph, "q_tick": 0.0}}
+
+
+def gen_integrity(rng, k, payload):
+    """C04: force each transfer path (buffer, into a blocked receiver's slot, out of a blocked sender's slot, refill,
+    drain) for each kind of waiter, with chosen bit patterns; k selects the pattern window."""
+    path = rng.choice(["buffer", "to_receiver", "from_sender", "refill", "drain"])
+    nvals = rng.choice([1, 2, 3])
+    if payload == "u8":
+        vals = [((k * 3 + j) % 256) for j in range(nvals)]
+        vals = list(dict.fromkeys(vals))
+    elif payload == "u16":
+        pool = [0, 1, 255, 256, 0x7FFF, 0x8000, 0xFFFF, 0xFF00, 0x00FF, 0xAAAA, 0x5555]
+        vals = list(dict.fromkeys([pool[(k + j) % len(pool)] if rng.random() < 0.5 else rng.randrange(65536) for j in range(nvals)]))
+    else:
+        vals = list(dict.fromkeys([rng.randrange(1, 190) for _ in range(nvals)]))
+    n = len(vals)
+    sflav, rflav = rng.choice(["ss", "as"]), rng.choice(["sr", "ar"])
+
+    def send_op(m, blocking):
+        o = rng.choice(["send", "send_timeout", "send_option_timeout", "asend"] if blocking else
+                       ["send", "try_send", "try_send_option", "send_timeout", "asend", "try_send_realtime"])
+        if o == "asend":
+            return [{"op": "asend_new", "h": 0, "f": 0, "m": m}, {"op": "await", "f": 0, "w": 1}, {"op": "drop_fut", "f": 0}]
+        if o in ("send_timeout", "send_option_timeout"):
+            return [{"op": o, "h": 0, "m": m, "d": 400}]
+        return [{"op": o, "h": 0, "m": m}]
+
+    def recv_op(blocking):
+        o = rng.choice(["recv", "recv_timeout", "arecv", "stream", "iter_next"] if blocking else
+                       ["recv", "try_recv", "recv_timeout", "arecv", "try_recv_realtime", "stream"])
+        if o == "arecv":
+            return [{"op": "arecv_new", "h": 0, "f": 0}, {"op": "await", "f": 0, "w": 1}, {"op": "drop_fut", "f": 0}]
+        if o == "stream":
+            return [{"op": "stream_new", "h": 0, "f": 0}, {"op": "await", "f": 0, "w": 1}, {"op": "drop_fut", "f": 0}]
+        if o == "recv_timeout":
+            return [{"op": o, "h": 0, "d": 400}]
+        return [{"op": o, "h": 0}]
+    S, Rv = [], []
+    if path == "buffer":
+        cap = rng.choice([n, n + 1, None])
+        for m in vals:
+            S += send_op(m, False)
+        Rv.append({"op": "barrier", "ph": 1})
+        for _ in vals:
+            Rv += recv_op(False)
+    elif path == "to_receiver":
+        cap = rng.choice([0, 1, None])
+        for _ in vals:
+            Rv += recv_op(True)
+        S.append({"op": "barrier", "ph": 1})
+        for m in vals:
+            S += send_op(m, False)
+    elif path == "from_sender":
+        cap = 0
+        for m in vals:
+            S += send_op(m, True)
+        Rv.append({"op": "barrier", "ph": 1})
+        for _ in vals:
+            Rv += recv_op(False)
+    elif path == "refill":
+        cap = 1
+        S.append({"op": "try_send", "h": 0, "m": vals[0]})
+        for m in vals[1:]:
+            S += send_op(m, True)
+        Rv.append({"op": "barrier", "ph": 1})
+        for _ in vals:
+            Rv += recv_op(False)
+    else:
+        cap = rng.choice([0, 1])
+        for m in vals:
+            S += send_op(m, True)
+        Rv += [{"op": "barrier", "ph": 1}, {"op": "drain_into", "h": 0, "pre": 0, "spare": rng.choice([0, 4])}]
+        for _ in vals:
+            Rv.append({"op": "try_recv", "h": 0})
+    procs = [{"phase": 0, "handles": [sflav], "ops": S}, {"phase": 0, "handles": [rflav], "ops": Rv}]
+    if path == "from_sender" and n > 1 and rng.random() < 0.5:
+        # several blocked senders: one process each
+        procs = [{"phase": 0, "handles": [sflav], "ops": [{"op": "barrier", "ph": 0}] + send_op(m, True)} for m in vals]
+        procs.append({"phase": 0, "handles": [rflav], "ops": Rv})
+    return {"cap": cap, "payload": payload, "procs": procs, "strat": {"q_tick": 0.0}}
+
+
+def gen_progress(rng):
+    """C06: a waiter registers first and is driven through its spin phase into the park / pending state;
+    the event that must release it arrives one phase later."""
+    cap = rng.choice([0, 0, 1, None])
+    wside = rng.choice("sr")
+    if cap is None:
+        wside = "r"
+    wkind = rng.choice(["sync", "sync", "timed", "async", "async2", "stream"] if wside == "r" else ["sync", "sync", "timed", "async", "async2"])
+    release = rng.choice(["peer", "peer", "peer_try", "peer_async", "close", "close_other", "last_drop", "drain"])
+    procs = []
+    pre = []
+    if wside == "s" and cap:
+        pre = [{"op": "try_send", "h": 0, "m": 100 + i} for i in range(cap)]
+    if wside == "s":
+        if wkind == "sync":
+            w = pre + [{"op": "send", "h": 0, "m": 1}]
+        elif wkind == "timed":
+            w = pre + [{"op": rng.choice(["send_timeout", "send_option_timeout"]), "h": 0, "m": 1, "d": 400}]
+        elif wkind == "async":
+            w = pre + [{"op": "asend_new", "h": 0, "f": 0, "m": 1}, {"op": "await", "f": 0, "w": 1}]
+        else:
+            w = pre + [{"op": "asend_new", "h": 0, "f": 0, "m": 1}, {"op": "poll", "f": 0, "w": 1}, {"op": "poll", "f": 0, "w": 2}, {"op": "await", "f": 0, "w": 3}]
+    else:
+        if wkind == "sync":
+            w = [{"op": rng.choice(["recv", "iter_next"]), "h": 0}]
+        elif wkind == "timed":
+            w = [{"op": "recv_timeout", "h": 0, "d": 400}]
+        elif wkind == "async":
+            w = [{"op": "arecv_new", "h": 0, "f": 0}, {"op": "await", "f": 0, "w": 1}]
+        elif wkind == "async2":
+            w = [{"op": "arecv_new", "h": 0, "f": 0}, {"op": "poll", "f": 0, "w": 1}, {"op": "poll", "f": 0, "w": 2}, {"op": "await", "f": 0, "w": 3}]
+        else:
+            w = [{"op": "stream_new", "h": 0, "f": 0}, {"op": "await", "f": 0, "w": 1}, {"op": "await", "f": 0, "w": 2}]
+    wh = rng.choice(["s", "a"]) + wside
+    nw = rng.choice([1, 1, 2])
+    for i in range(nw):
+        ww = json.loads(json.dumps(w))
+        for o in ww:
+            if "m" in o and o["m"] < 100:
+                o["m"] = i + 1
+            elif "m" in o:
+                o["m"] += 10 * i
+        procs.append({"phase": 0, "handles": [wh], "ops": ww})
+    other = "r" if wside == "s" else "s"
+    oh = rng.choice(["s", "a"]) + other
+    b = [{"op": "barrier", "ph": 1}]
+    if release in ("peer", "peer_try", "peer_async", "drain"):
+        ops = list(b)
+        for i in range(nw + (cap or 0 if wside == "s" else 0)):
+            if other == "s":
+                if release == "peer_async":
+                    ops += [{"op": "asend_new", "h": 0, "f": 0, "m": 50 + i}, {"op": "await", "f": 0, "w": 1}, {"op": "drop_fut", "f": 0}]
+                else:
+                    ops.append({"op": "try_send" if release == "peer_try" else "send", "h": 0, "m": 50 + i})
+            else:
+                if release == "drain":
+                    ops.append({"op": "drain_into", "h": 0, "pre": 0, "spare": 2})
+                elif release == "peer_async":
+                    ops += [{"op": "arecv_new", "h": 0, "f": 0}, {"op": "await", "f": 0, "w": 1}, {"op": "drop_fut", "f": 0}]
+                else:
+                    ops.append({"op": "try_recv" if release == "peer_try" else "recv", "h": 0})
+        procs.append({"phase": 0, "handles": [oh], "ops": ops})
+    elif release == "close":
+        procs.append({"phase": 0, "handles": [oh], "ops": b + [{"op": "close", "h": 0}]})
+    elif release == "close_other":
+        procs.append({"phase": 0, "handles": [rng.choice(["s", "a"]) + wside], "ops": b + [{"op": "close", "h": 0}]})
+        procs.append({"phase": 0, "handles": [oh], "ops": [{"op": "barrier", "ph": 2}]})
+    else:
+        procs.append({"phase": 0, "handles": [oh, oh], "ops": b + [{"op": "drop", "h": 0}, {"op": "len", "h": 1}, {"op": "drop", "h": 1}]})
+    st = {"spin_bias": rng.choice([0.9, 0.995, 0.999]), "p_switch": rng.choice([0.02, 0.1, 0.5]),
+          "p_spurious": rng.choice([0.0, 0.2, 0.4]), "q_tick": 0.0, "tick_phase": 3}
+    return {"cap": cap, "payload": rng.choice(["w1", "b3", "h4"]), "procs": procs, "strat": st}
+
+
+def gen_mutex(rng, freeze=False):
+    """C17: 2..4 threads contend on the raw lock through lock / try_lock / unlock with accesses to a monitored cell."""
+    n = rng.choice([2, 3, 3, 4])
+    procs = []
+    for _ in range(n):
+        ops = []
+        for _ in range(rng.choice([1, 2, 3])):
+            ops.append({"op": rng.choice(["lock", "lock", "try_lock"])})
+            for _ in range(rng.choice([0, 1, 2])):
+                ops.append({"op": rng.choice(["write", "write", "read"])})
+            ops.append({"op": "unlock"})
+        procs.append({"phase": 0, "ops": ops})
+    st = {"parallelism": rng.choice([1, 16]), "p_switch": rng.choice([0.2, 0.5, 1.0])}
+    if freeze:
+        st["freeze"] = [rng.randrange(n), rng.randrange(1, 14)]
+    return {"mutex": True, "procs": procs, "strat": st}
 
 
 def seq_alphabet():
